@@ -17,10 +17,13 @@ SPECIAL = [0x09, 0x0a, 0x0b, 0x0c, 0x0d, 0x1c, 0x1d, 0x1e, 0x1f, 0x20, 0x85, 0xa
            0x2007, 0x2008, 0x2009, 0x200a, 0x200b, 0x2028, 0x2029, 0x202f, 0x205f, 0x3000, 0xfeff, 0x00, 0x7f, 0x80, 0x9f, 0xad, 0x300, 0x130, 0x1c5, 0xdf,
            0x1f600, 0x1d49c, 0x10ffff, 0xe000, 0xfffd, 0xffff, 0xfdd0, 0x22, 0x27, 0x5c, 0x25, 0x24, 0x5b, 0x5d, 0x3d, 0x3b, 0x23]
 
-def passwords_for(cps):
+def passwords_for(cps, dominant=None):
     out = []
     for cp in cps:
         ch = chr(cp)
+        if dominant is not None and cp == dominant:
+            # this character's values are the most frequent of their files, i.e. they sit on the first line
+            out += [ch, ch + 'a', 'a' + ch, ch + ch, ch + ' '] * 4
         out += [ch, ch + 'a', 'a' + ch, 'a' + ch + 'b', ch + ch, 'ab1' + ch, ch + ' ', ' ' + ch]
     return out
 
@@ -33,6 +36,9 @@ def gen_cases(rng, tier, shard):
             rng.shuffle(cps)
             for b in range(0, len(cps), 80):
                 cases.append({'cps': cps[b:b + 80], 'encoding': enc, 'ngram': rng.choice([2, 3]), 'coverage': rng.choice([0.6, 1.0])})
+        # first-line placement: each of these characters in turn is the most frequent value of its files
+        for cp in [0xfeff, 0x20, 0xa0, 0x3000, 0x200b, 0x22, 0x23, 0x3b, 0x5b, 0x25, 0x2000, 0x1680, 0x27, 0x5c]:
+            cases.append({'cps': [cp] + rng.sample(SPECIAL, 6), 'dominant': cp, 'encoding': 'utf-8', 'ngram': 2, 'coverage': rng.choice([0.6, 1.0])})
         return [c for k, c in enumerate(cases) if k % n == i]
     allc = [c for c in range(0x0, 0x10000) if not (0xd800 <= c < 0xe000)]
     astral = [rng.randrange(0x10000, 0x110000) for _ in range(4000)] if i == 0 else []
@@ -40,6 +46,9 @@ def gen_cases(rng, tier, shard):
     mine = [b for k, b in enumerate(batches) if k % n == i] + [astral[b:b + 200] for b in range(0, len(astral), 200)]
     for b in mine:
         cases.append({'cps': b, 'encoding': 'utf-8', 'ngram': rng.choice([2, 3]), 'coverage': 0.6})
+    for k, cp in enumerate(SPECIAL):
+        if k % n == i and not (0xd800 <= cp < 0xe000):
+            cases.append({'cps': [cp] + rng.sample(SPECIAL, 6), 'dominant': cp, 'encoding': 'utf-8', 'ngram': 2, 'coverage': 0.6})
     for k, enc in enumerate(['latin-1', 'cp1252', 'cp1251', 'iso-8859-7', 'cp437', 'koi8-r', 'iso-8859-15', 'cp1250']):
         if k % n != i:
             continue
@@ -59,7 +68,7 @@ def flat(section):
 def check_case(run, case):
     enc = case['encoding']
     pws = []
-    for pw in passwords_for([c for c in case['cps'] if not (0xd800 <= c < 0xe000)]):
+    for pw in passwords_for([c for c in case['cps'] if not (0xd800 <= c < 0xe000)], case.get('dominant')):
         try:
             pw.encode(enc)
         except UnicodeEncodeError:
